@@ -8,8 +8,13 @@ from wire import hx, unhx
 
 KIND = "files"
 SPECS = ["C11"]
-THEOREMS = []
-LEAN_MODULES = ["TbotVerif.Spec.Files"]
+THEOREMS = ["C11.spec_holds", "C11.spec_holds_b64", "C11.bytes_roundtrip", "C11.bytes_roundtrip_b64", "C11.text_roundtrip",
+            "C11.write_bytes_spec", "C11.read_bytes_spec", "C11.write_text_spec", "C11.read_text_spec", "C11.text_forbidden",
+            "Files.b64_ok", "Files.Remote.ttyRead_all", "Files.Remote.session_tee", "Files.Remote.session_printf",
+            "Files.ss_read", "Files.ss_send", "Files.ss_rup", "Files.fetchRetcode_ok", "Files.exec0Fed_ok",
+            "Files.writeText_slow_ok", "Files.writeText_fast_ok", "Files.writeBytes_ok",
+            "Files.decodeReplace_enc", "Files.text_cook_enc", "Files.noEarly_of_class"]
+LEAN_MODULES = ["TbotVerif.Props.C11"]
 QUICK_N, THOROUGH_N = 4000, 60000
 QUICK_BUDGET, THOROUGH_BUDGET = 40, 900
 CASE_WALL = 8
